@@ -383,7 +383,7 @@ struct Model {
 // ------------------------------------------------------------------------------------------------ generator
 struct GenOpts {
   int nmods = 2, nfuncs = 3, body = 6; bool lref = true, jt = true, icall = true, ext = true, mem = true, loops = true, doubles = true, recursion = true, sw = true;
-  int max_na = 8; int sw_weight = 8; bool blocked = false; bool gvar = true, fpbranch = true, ldiff = true, extn = false;
+  int max_na = 8; int sw_weight = 8; bool blocked = false, wide = false; bool gvar = true, fpbranch = true, ldiff = true, extn = false;
 };
 struct Generator {
   Rng &r; GenOpts o; std::vector<FuncInfo> fs; int cur = 0; int depth = 0; bool in_loop = false;
@@ -440,7 +440,10 @@ struct Generator {
   Json stmt_simple() { Json s = Json::array(); s.push("op"); s.push("add"); s.push(dst()); s.push(src()); s.push(src()); return s; }
   Json program() {
     int total = o.nmods * o.nfuncs; fs.clear();
-    for (int i = 0; i < total; i++) { FuncInfo fi; fi.name = S("f%d", i); fi.fuel = o.recursion && r.chance(1, 3); fi.na = (int) r.range(fi.fuel ? 1 : 0, r.chance(1, 4) ? o.max_na : 3); fi.nd = o.doubles && r.chance(1, 4) ? (int) (r.chance(1, 3) ? r.range(4, 8) : r.range(1, 3)) : 0; fi.cgoto = (o.jt || o.lref) && r.chance(1, 2);
+    for (int i = 0; i < total; i++) { FuncInfo fi; fi.name = S("f%d", i); fi.fuel = o.recursion && r.chance(1, 3); fi.na = (int) r.range(fi.fuel ? 1 : 0, r.chance(1, 4) ? o.max_na : 3);
+      if (o.wide && i == total - 1 && !fi.fuel) fi.na = (int) r.range(65, 70);   // one function with a very long parameter list
+      fi.nd = fi.na > 8 ? 0 : o.doubles && r.chance(1, 4) ? (int) (r.chance(1, 3) ? r.range(4, 8) : r.range(1, 3)) : 0; fi.cgoto = (o.jt || o.lref) && r.chance(1, 2);
+      if (fi.na > 8) fi.cgoto = false;
       if (o.gvar && fi.na <= 4 && r.chance(1, 6)) fi.gv = (int) r.range(1, 90);  // a variable tied to hard register r8 (free when at most 4 integer parameters)
       fs.push_back(fi); }
     // spread functions over modules round-robin so that calls cross module borders in both directions
